@@ -9,7 +9,9 @@ QUICK_S = 45
 THOROUGH_S = 600
 RULE = ('real serial client (rtu/ascii/binary) <-> the REAL ModbusSerialServer over one simulated line, and real TLS-framing '
         'client <-> real sync TCP server with the TLS framer; fault-free; every request class that predicts its reply size '
-        '(FC 1-6, 8, 15, 16, 23); systematic part: bit quantities 1..2000 and register quantities 1..125 (quick: all residues '
+        '(FC 1-6, 15, 16, 23 and FC 8 with every answered diagnostic sub-function incl. 21 get/clear statistics), and on the '
+        'serial framings also the request classes that do not predict (FC 0B, 0C, 11, 14, 15, 18, 2B/0E: sized from the '
+        'reply header on RTU, read-what-arrived elsewhere); systematic part: bit quantities 1..2000 and register quantities 1..125 (quick: all residues '
         'mod 8 around every boundary plus a stride; thorough: every quantity) plus address classes that produce exception '
         'replies. Oracle on the transport log: the byte counts the client reads from its port sum to exactly the frame the '
         'server wrote, no read returns short (= waited for bytes that never came), the transaction ends before the timeout, '
@@ -49,6 +51,8 @@ def predict(op):
                                                   write_address=a['write_address'], write_registers=list(a['write_registers']))
     elif fn == 'diag_query_data':
         rq = ReturnQueryDataRequest(int(a['data'], 16))
+    elif fn in cli.EXTENDED:
+        rq = cli.build_extended(op)     # diagnostic sub-functions predict; the other extended requests do not
     else:
         return None
     return rq.get_response_pdu_size() if hasattr(rq, 'get_response_pdu_size') else None
@@ -78,12 +82,40 @@ def op_for(fn, qty, addr=0, bad_addr=False):
                                    'write_registers': [0x0203, 0x0405]}, 'unit': 1, 'reply': {}}
     if fn == 'diag_query_data':
         return {'fn': fn, 'args': {'data': '%04x' % (0x0102 + qty)}, 'unit': 1, 'reply': {}}
+    if fn == 'diag':
+        sub, data = DIAGS[qty - 1]
+        return {'fn': fn, 'args': {'sub': sub, 'data': data}, 'unit': 1, 'reply': {}}
+    if fn in ('get_comm_event_counter', 'get_comm_event_log', 'report_slave_id'):
+        return {'fn': fn, 'args': {}, 'unit': 1, 'reply': {}}
+    if fn == 'read_fifo_queue':
+        return {'fn': fn, 'args': {'address': a}, 'unit': 1, 'reply': {}}
+    if fn == 'read_file_record':
+        return {'fn': fn, 'args': {'records': [[1 + i, 2 + i, 1 + (qty + i) % 3] for i in range(qty)]}, 'unit': 1, 'reply': {}}
+    if fn == 'write_file_record':
+        return {'fn': fn, 'args': {'records': [[1 + i, 2 + i, ('%04x' % (0x0102 + i)) * (1 + (qty + i) % 3)] for i in range(qty)]},
+                'unit': 1, 'reply': {}}
+    if fn == 'read_device_information':
+        code, oid = DEVINFO[qty - 1]
+        return {'fn': fn, 'args': {'read_code': code, 'object_id': oid}, 'unit': 1, 'reply': {}}
     raise ValueError(fn)
+
+
+# diagnostic sub-functions that are answered (4, force listen only, is never answered); 21 = get (3) / clear (4) statistics
+DIAGS = [(1, 0x0000), (1, 0xFF00), (2, 0), (3, 0x0A00), (10, 0), (11, 0), (12, 0), (13, 0), (14, 0), (15, 0), (16, 0), (17, 0),
+         (18, 0), (20, 0), (21, 3), (21, 4)]
+DEVINFO = [(1, 0), (2, 0), (3, 0), (4, 0), (4, 1), (4, 2), (1, 1), (2, 3)]
 
 
 LIMITS = {'read_coils': 2000, 'read_discrete_inputs': 2000, 'read_holding_registers': 125, 'read_input_registers': 125,
           'write_coils': 1968, 'write_registers': 123, 'readwrite_registers': 125, 'write_coil': 1, 'write_register': 1,
-          'diag_query_data': 1}
+          'diag_query_data': 1,
+          # "quantity" = index into DIAGS / DEVINFO, or number of file records
+          'diag': len(DIAGS), 'get_comm_event_counter': 1, 'get_comm_event_log': 1, 'report_slave_id': 1,
+          'read_fifo_queue': 1, 'read_file_record': 3, 'write_file_record': 3, 'read_device_information': len(DEVINFO)}
+NO_PREDICTION = ('get_comm_event_counter', 'get_comm_event_log', 'report_slave_id', 'read_fifo_queue',
+                 'read_file_record', 'write_file_record', 'read_device_information')
+NO_BAD_ADDR = ('diag', 'get_comm_event_counter', 'get_comm_event_log', 'report_slave_id', 'read_fifo_queue',
+               'read_file_record', 'write_file_record', 'read_device_information')
 
 
 def quantities(fn, tier):
@@ -101,21 +133,24 @@ def quantities(fn, tier):
 def systematic(tier):
     for kind, framing in FRAMINGS:
         for fn in LIMITS:
+            if framing == 'tls' and fn in NO_PREDICTION:
+                continue        # no prediction, no frame extent on this framing: cannot be received at all (C08: KF-C08-TLS-REPLY)
             for q in quantities(fn, tier):
                 if framing == 'ascii' and fn in ('write_registers',) and q > 123:
                     continue
                 yield mk(kind, framing, [op_for(fn, q)])
-            yield mk(kind, framing, [op_for(fn, min(3, LIMITS[fn]), bad_addr=True)])
+            if fn not in NO_BAD_ADDR:
+                yield mk(kind, framing, [op_for(fn, min(3, LIMITS[fn]), bad_addr=True)])
 
 
 def generate(rng, tier, index):
     kind, framing = rng.choice(FRAMINGS)
     ops = []
     for _ in range(rng.randint(1, 3)):
-        fn = rng.choice(list(LIMITS))
+        fn = rng.choice([f for f in LIMITS if not (framing == 'tls' and f in NO_PREDICTION)])
         q = rng.randint(1, LIMITS[fn])
         ops.append(op_for(fn, q, addr=rng.choice([0, 1, 7, 100]) if LIMITS[fn] + 100 < 2200 else 0,
-                          bad_addr=rng.random() < 0.2))
+                          bad_addr=rng.random() < 0.2 and fn not in NO_BAD_ADDR))
     return mk(kind, framing, ops)
 
 
@@ -138,7 +173,7 @@ def execute(scn):
         op = ops[call['index']]
         fc = cli.request_pdu(op)[0]
         if 'return_seq' not in call:
-            add('hang', 'call %d never returned' % call['index'], fn=op['fn'])
+            add('hang', 'call %d never returned' % call['index'], fn=label(op))
             continue
         lo, hi = call['invoke_seq'], call['return_seq']
         srv_tx = b''.join(d for (seq, task, k_, name, d) in io if k_ == 'send' and name.startswith('srv') and lo < seq < hi)
@@ -150,7 +185,7 @@ def execute(scn):
         try:
             unit, tid, pid, pdu = codec.parse_frame(framing, srv_tx)
         except codec.Malformed as ex:
-            add('server-frame-unparseable', 'server wrote %s: %s' % (srv_tx.hex()[:60], ex), fn=op['fn'])
+            add('server-frame-unparseable', 'server wrote %s: %s' % (srv_tx.hex()[:60], ex), fn=label(op))
             continue
         is_exc = bool(pdu[0] & 0x80)
         rtype = 'exception' if is_exc else 'normal'
@@ -162,7 +197,7 @@ def execute(scn):
         pred = predict(op)
         if pred is not None and not is_exc and pred != len(pdu):
             add('prediction-wrong', '%s qty=%s: get_response_pdu_size()=%d but the server replied a %d-byte PDU'
-                % (op['fn'], qty_of(op), pred, len(pdu)), fn=op['fn'], reply=rtype)
+                % (op['fn'], qty_of(op), pred, len(pdu)), fn=label(op), reply=rtype)
         # the client reads exactly the reply frame
         short_reads = []
         if kind == 'serial' and res.ports:
@@ -172,22 +207,22 @@ def execute(scn):
         if got != srv_tx:
             if len(got) < len(srv_tx):
                 add('stopped-short', '%s qty=%s (%s reply): client read %d of the %d bytes the server wrote'
-                    % (op['fn'], qty_of(op), rtype, len(got), len(srv_tx)), fn=op['fn'], reply=rtype)
+                    % (op['fn'], qty_of(op), rtype, len(got), len(srv_tx)), fn=label(op), reply=rtype)
             else:
                 add('read-more-than-sent', '%s: client read %d bytes, server wrote %d' % (op['fn'], len(got), len(srv_tx)),
-                    fn=op['fn'], reply=rtype)
+                    fn=label(op), reply=rtype)
         elif short_reads or dur >= timeout:
             add('waited-for-bytes-that-never-come', '%s qty=%s (%s reply): transaction took %.3f virtual s (timeout %.1f); short reads %s'
-                % (op['fn'], qty_of(op), rtype, dur, timeout, short_reads[:3]), fn=op['fn'], reply=rtype)
+                % (op['fn'], qty_of(op), rtype, dur, timeout, short_reads[:3]), fn=label(op), reply=rtype)
         r = call['result']
         if call['exc'] is not None:
-            add('raised', '%s raised %s' % (op['fn'], type(call['exc']).__name__), fn=op['fn'], exc=type(call['exc']).__name__)
+            add('raised', '%s raised %s' % (op['fn'], type(call['exc']).__name__), fn=label(op), exc=type(call['exc']).__name__)
         elif not is_exc and (r is None or getattr(r, 'function_code', None) != fc):
             add('reply-not-returned', '%s qty=%s: server replied normally but the client returned %s'
-                % (op['fn'], qty_of(op), type(r).__name__), fn=op['fn'], reply=rtype)
+                % (op['fn'], qty_of(op), type(r).__name__), fn=label(op), reply=rtype)
         elif is_exc and getattr(r, 'function_code', None) != (fc | 0x80):
             add('reply-not-returned', '%s: server replied exception %s but the client returned %s'
-                % (op['fn'], pdu.hex(), type(r).__name__), fn=op['fn'], reply=rtype)
+                % (op['fn'], pdu.hex(), type(r).__name__), fn=label(op), reply=rtype)
     out['nontrivial'] = nontrivial
     op0 = ops[0]
     out['shape'] = '%s/%s/%s/%s' % (framing, op0['fn'], qty_of(op0), len(ops))
@@ -195,8 +230,20 @@ def execute(scn):
     return out
 
 
+def label(op):
+    if op['fn'] == 'diag':
+        return 'diag/%d' % op['args']['sub'] + ('/%d' % op['args']['data'] if op['args']['sub'] == 21 else '')
+    return op['fn']
+
+
 def qty_of(op):
     a = op['args']
+    if op['fn'] == 'diag':
+        return '%d/%d' % (a['sub'], a['data'])
+    if 'records' in a:
+        return len(a['records'])
+    if 'read_code' in a:
+        return '%d/%d' % (a['read_code'], a['object_id'])
     for k in ('count', 'read_count'):
         if k in a:
             return a[k]
